@@ -22,6 +22,7 @@ THOROUGH = QUICK + [
     S("chain_u_first", 3, [(0, 1, A), (1, 2, A)], ["call", "store", "store"], 2),
     S("out_none_chain", 3, [(0, 1, A), (1, 2, A)], ["src", "store", "store"], None),
     S("out_mid", 3, [(0, 1, A), (1, 2, A)], ["store", "store", "store"], 1),
+    S("dep_source_2pred", 4, [(0, 2, D), (1, 2, D), (2, 3, A)], ["call", "call", "src", "store"], 3),
     S("unstored_sink_not_requested", 4, [(0, 1, A), (1, 2, A), (1, 3, A)], ["src", "store", "call", "store"], 3),
 ]
 BY_NAME = {s.name: s for s in THOROUGH}
